@@ -122,6 +122,8 @@ def replay(o, tree):
         return deferred_c.replay_poly_nested(o["cfg"], o.get("witness") or {}, tree)
     if (o.get("cfg") or {}).get("kind") == "poly-selfref":
         return deferred_c.replay_poly_selfref(o["cfg"], o.get("witness") or {}, tree)
+    if (o.get("cfg") or {}).get("kind") == "poly-mul":
+        return deferred_c.replay_poly_mul(o["cfg"], o.get("witness") or {}, tree)
     if (o.get("cfg") or {}).get("kind") == "linkfiles":
         from contracts import c02
         return c02.replay(o, tree)
